@@ -71,6 +71,7 @@ inductive Err
   | none | nomech | unexpected | saslFailure | b64 | authnErr | mechErr | eof | terminated
   | notCalled   -- the element never reached the feature (rejected by the feature dispatch)
   | writeErr    -- writing to the connection failed
+  | ctxErr      -- the context was cancelled / its deadline passed
   deriving DecidableEq, Repr, Inhabited
 
 def Err.toString : Err → String
@@ -79,6 +80,7 @@ def Err.toString : Err → String
   | .mechErr => "mecherr" | .eof => "eof" | .terminated => "terminated"
   | .notCalled => "notcalled"
   | .writeErr => "write"
+  | .ctxErr => "ctx"
 
 /-! ## initiating side -/
 
@@ -175,6 +177,80 @@ def clientNeg (cm : List (String × Mech)) (adv : List String) (peer : List CEv)
     | .done =>
       let r := readFinal [] peer
       { r with used := some name, sent := .auth name ((mech []).resp) :: r.sent }
+
+/-! ### the initiating side in a hostile environment: write failures and cancellation -/
+
+/-- `budget`: how many more SASL elements the connection accepts before every write fails
+(`none`: healthy).  `cancelAt`: the context is done once that many elements have been read
+inside the `for more` loop (`none`: never) — the loop looks at the context at the top of
+every iteration, and nowhere else. -/
+structure CEnv where
+  budget : Option Nat := none
+  cancelAt : Option Nat := none
+  deriving DecidableEq, Repr
+
+def CEnv.canWrite (e : CEnv) : Bool := e.budget != some 0
+def CEnv.wrote (e : CEnv) : CEnv := { e with budget := e.budget.map (· - 1) }
+def CEnv.cancelled (e : CEnv) (i : Nat) : Bool :=
+  match e.cancelAt with
+  | some k => decide (k ≤ i)
+  | none => false
+
+/-- the `for more { … }` loop with the context test, and the flush after every
+`<response/>`, made explicit; `i` counts the elements read in the loop -/
+def clientLoopE (mech : Mech) : CEnv → Nat → List Bytes → List CEv → CRes
+  | env, i, hist, peer =>
+    if env.cancelled i then fail .ctxErr hist 0 else
+    match peer with
+    | [] => fail .eof hist 0
+    | .challenge p :: rest =>
+      match p.decodeClient with
+      | none => fail .b64 hist 1
+      | some c =>
+        match (mech (hist ++ [c])).kind with
+        | .more =>
+          if env.canWrite then
+            (clientLoopE mech env.wrote (i + 1) (hist ++ [c]) rest).after [.response ((mech (hist ++ [c])).resp)]
+          else fail .writeErr (hist ++ [c]) 1
+        | .done =>
+          if env.canWrite then
+            (readFinal (hist ++ [c]) rest).after [.response ((mech (hist ++ [c])).resp)]
+          else fail .writeErr (hist ++ [c]) 1
+        | .authnErr => fail .mechErr (hist ++ [c]) 1
+        | .otherErr => fail .mechErr (hist ++ [c]) 1
+    | .success p :: _ =>
+      match p.decodeClient with
+      | none => fail .b64 hist 1
+      | some c =>
+        match (mech (hist ++ [c])).kind with
+        | .more => fail .unexpected (hist ++ [c]) 1
+        | .done => { authn := true, hist := hist ++ [c], consumed := 1 }
+        | .authnErr => fail .mechErr (hist ++ [c]) 1
+        | .otherErr => fail .mechErr (hist ++ [c]) 1
+    | .failure :: _ => fail .saslFailure hist 1
+    | .other :: _ => fail .unexpected hist 1
+    | .otherNs :: _ => fail .unexpected hist 1
+    | .space :: _ => fail .unexpected hist 1
+
+/-- `negotiateClient` with the environment: the `<auth/>` element is flushed too -/
+def clientNegE (env : CEnv) (cm : List (String × Mech)) (adv : List String) (peer : List CEv) : CRes :=
+  match select cm adv with
+  | none => fail .nomech [] 0
+  | some (name, mech) =>
+    if name = "" then fail .nomech [] 0 else
+    match (mech []).kind with
+    | .authnErr => { fail .mechErr [] 0 with used := some name }
+    | .otherErr => { fail .mechErr [] 0 with used := some name }
+    | .more =>
+      if env.canWrite then
+        let r := clientLoopE mech env.wrote 0 [] peer
+        { r with used := some name, sent := .auth name ((mech []).resp) :: r.sent }
+      else { fail .writeErr [] 0 with used := some name }
+    | .done =>
+      if env.canWrite then
+        let r := readFinal [] peer
+        { r with used := some name, sent := .auth name ((mech []).resp) :: r.sent }
+      else { fail .writeErr [] 0 with used := some name }
 
 /-! ## receiving side -/
 
